@@ -36,7 +36,7 @@ func histSuite(tier string) []*families.Case {
 		src := append(pick(families.F5(0, nil), 10), pick(families.F6(4, 0, nil), 6)...)
 		src = append(src, pick(families.F3(0, nil), 4)...)
 		cs = append(cs, families.Hist(src, 3, 6, []int{-1, 1, 1 << 15}, us, []string{"", "is"})...)
-		cs = append(cs, families.LongInputs([]string{""})[:2]...)
+		cs = append(cs, families.LongInputs([]string{""})...)
 	}
 	return cs
 }
@@ -109,5 +109,5 @@ func init() {
 	reg("C08", []string{"static", "beh"}, "the option sets yield at least two different outputs for the grammar (static suite) / the variant's code differs from the plain parser's (behaviour suite, which also compiles the file)")
 	reg("C11", []string{"beh"}, "rejected input with a non-empty furthest token")
 	reg("C12", []string{"hist"}, "a step executed in a configuration other than (uint32, Size unset), or inside a history")
-	reg("C13", []string{"beh"}, "input over the hostile byte alphabet (invalid UTF-8, NUL, non-BMP, U+10FFFF)")
+	reg("C13", []string{"beh", "hist", "shipped"}, "input over the hostile byte alphabet (invalid UTF-8, NUL, non-BMP, U+10FFFF)")
 }
